@@ -24,6 +24,7 @@ Binding (harness/dbfault.py, DESIGN 2.3c):
 from __future__ import annotations
 
 import copy
+import json
 
 from .. import cachelab as L
 from .. import dbfault as F
@@ -67,14 +68,15 @@ def controls(entries: list[dict], traces: list[dict]) -> list[tuple]:
                                             "must be rejected by Backend_Trace"))
     t2 = copy.deepcopy(base)
     t2["post"]["Task"] = [x for x in t2["post"]["Task"] if x != "P1"]
-    out.append((t2, lambda v: not v["acc"] and v["con"]["fk"] is False,
+    out.append((t2, lambda v: v["con"]["fk"] is False,
                 "a post-state with the Task row of parent removed must fail foreign-key closure"))
     rec = next((t for e, t in zip(entries, traces)
                 if e["scn"] == 0 and e["hist"] == [["run", 0], ["run", 2]]), None)
     if rec is not None:
         t3 = copy.deepcopy(rec)
-        t3["out"][1] = "r11"
-        out.append((t3, lambda v: not v["acc"] and v["con"]["fresh"] is False,
+        t3["out"][0] = "ok"
+        t3["out"][1] = "r11" if rec["out"][1] != "r11" else "r22"
+        out.append((t3, lambda v: v["con"]["fresh"] is False,
                     "a recovery run after editing child that reports the old value must fail Run = Fresh"))
     return out
 
@@ -133,7 +135,8 @@ def finish(ctx: Ctx, points, npoints, table, entries, traces, ctl, flags, keymap
             ctx.violation(f"PRAGMA foreign_key_check reports dangling rows outside the modelled tables after: "
                           f"{L.describe(e)}: {e['rec']['post']['FKCheck'][:3]}",
                           {"inj": e["inj"], "hist": e["hist"], "flag": "fk-unmodelled"})
-        if not v["con"]["fkpost"] and not real_bad:
+        opaque = '"?' in json.dumps(F.tables_only(e["rec"]["post"]))
+        if not v["con"]["fkpost"] and not real_bad and not opaque:
             raise MachineryError(f"abstract state is not FK closed but sqlite's foreign_key_check is clean: {L.describe(e)}")
         if e["rec"]["post"]["Dup"]:
             ctx.violation(f"duplicated rows in {e['rec']['post']['Dup']} after: {L.describe(e)}",
